@@ -151,6 +151,10 @@ def cases(tier):
                 for a in alarm_specs():
                     for r in repeats():
                         yield cls, start, ef, [(a, r)]
+                # "for each alarm": two alarms with EQUAL content are two alarms
+                for a in alarm_specs()[::2]:
+                    for r in repeats()[:4]:
+                        yield cls, start, ef, [(a, r), (a, r)]
                 if tier != "quick":
                     for a1, a2 in itertools.product(alarm_specs()[::3], repeat=2):
                         yield cls, start, ef, [(a1, (1, timedelta(hours=6))), (a2, (None, None))]
